@@ -114,7 +114,7 @@ public:
         QualType t = e->getType();
         if (t.isNull()) return;
         if (!(t->isIntegralOrEnumerationType())) {
-            if (t->isRealFloatingType() && e->isPRValue()) {
+            if (t->isRealFloatingType()) {
                 Expr::EvalResult r;
                 if (e->EvaluateAsRValue(r, Ctx) && !r.HasSideEffects && r.Val.isFloat()) {
                     llvm::SmallString<32> s;
@@ -186,10 +186,27 @@ public:
         J.objectEnd();
     }
 
+    void targs(const FunctionDecl* fd) {
+        const TemplateArgumentList* tal = fd ? fd->getTemplateSpecializationArgs() : nullptr;
+        if (!tal) return;
+        J.attributeBegin("targs");
+        J.arrayBegin();
+        for (const TemplateArgument& ta : tal->asArray()) {
+            std::string ts;
+            llvm::raw_string_ostream os(ts);
+            ta.print(PP, os, /*IncludeType*/ false);
+            os.flush();
+            J.value(fixUtf8(ts));
+        }
+        J.arrayEnd();
+        J.attributeEnd();
+    }
+
     void calleeAttrs(const FunctionDecl* fd) {
         if (!fd) return;
         std::string q = qname(fd);
         J.attribute("fn", q);
+        targs(fd);
         callees.insert(q);
         if (auto* md = dyn_cast<CXXMethodDecl>(fd)) {
             J.attribute("m", md->getNameAsString());
@@ -229,6 +246,7 @@ public:
             } else if (auto* fd = dyn_cast<FunctionDecl>(d)) {
                 J.attribute("d", "Fn");
                 J.attribute("q", qname(fd));
+                targs(fd);
                 callees.insert(qname(fd));
             } else if (auto* vd = dyn_cast<VarDecl>(d)) {
                 bool local = vd->isLocalVarDeclOrParm();
@@ -741,6 +759,7 @@ public:
         J.attribute("l_end", (int64_t)D.line(fd->getEndLoc()));
         if (fd->isTemplated()) J.attribute("tmpl", true);
         if (fd->getTemplateSpecializationKind() == TSK_ExplicitSpecialization) J.attribute("spec", true);
+        D.targs(fd);
         if (auto* md = dyn_cast<CXXMethodDecl>(fd)) {
             J.attribute("cls", Dumper::qname(md->getParent()));
             if (md->isConst()) J.attribute("const", true);
